@@ -328,13 +328,17 @@ func boundedHistories() (ok bool) {
 			return t, err, true, false
 		}},
 		{"sign-unsupported-alg", func(e *Evidence) ([]byte, error, bool, bool) {
-			// a signer for an algorithm go-cose cannot verify, returning bytes that are no signature:
-			// whether or not the library refuses it, verification must not succeed afterwards
-			t, err := e.Sign(faultySigner{alg: cose.Algorithm(-65000), sig: []byte{1, 2, 3}})
-			if err == nil && e.Verify(k.Public()) == nil {
-				panic("an Evidence signed with an unsupported algorithm and a junk signature verifies")
+			// a signer reporting an algorithm outside the COSE registry (an unassigned code point, or the
+			// zero value) and returning bytes that are no signature: the statement lists it among the signer
+			// FAULTS, so the operation must fail and hand out no token (defect F18: the guard in doSign was dead)
+			for _, a := range []cose.Algorithm{cose.Algorithm(-65000), cose.AlgorithmReserved} {
+				t, err := e.Sign(faultySigner{alg: a, sig: []byte{1, 2, 3}})
+				if err == nil || t != nil {
+					panic(fmt.Sprintf("Sign with a signer reporting algorithm %d (not a COSE algorithm) is not refused: it returns a token that can never verify", int64(a)))
+				}
 			}
-			return t, err, false, false
+			t, err := e.Sign(faultySigner{alg: cose.Algorithm(-65000), sig: []byte{1, 2, 3}})
+			return t, err, true, false
 		}},
 		{"vsign-invalid", func(e *Evidence) ([]byte, error, bool, bool) {
 			saved := e.Claims
